@@ -69,6 +69,7 @@ def run(chk: Check) -> None:
     _index_unchanged(chk)
     _operators(chk)
     _int_bounds(chk)
+    _delegation_table(chk)
     _materialised(chk, types)
     own = ownership(repo)
     k = 0
@@ -638,3 +639,72 @@ def _int_bounds(chk: Check) -> None:
     chk.ob("R16.6", "ListWrapper.__setitem__:int-bounds", ok, f.loc(r),
            "the bounds test for an integer index must accept exactly -len <= i < len (like list); %s"
            % why, 3)
+
+
+_DELEGATES = {
+    ("SetWrapper", "__contains__"): ("cmp", "In", ("param", 1), "$store"),
+    ("SetWrapper", "__iter__"): "$store",
+    ("SetWrapper", "__len__"): ("call", ("name", "len"), ("$store",)),
+    ("SetWrapper", "add"): ("call", ("attr", "$store", "add"), (("param", 1),)),
+    ("SetWrapper", "discard"): ("call", ("attr", "$store", "discard"), (("param", 1),)),
+    ("ListWrapper", "__getitem__"): ("index", "$store", ("param", 1)),
+    ("ListWrapper", "__len__"): ("call", ("name", "len"), ("$store",)),
+    ("DictWrapper", "__getitem__"): ("index", "$store", ("param", 1)),
+    ("DictWrapper", "__iter__"): "$store",
+    ("DictWrapper", "__len__"): ("call", ("name", "len"), ("$store",)),
+}
+
+
+def _delegation_table(chk: Check) -> None:
+    """the abstract-method primitives of the three wrappers are the same-named operation of
+    the wrapped store, nothing more"""
+    from ..terms import OutsideFragment, function_term, show
+    repo = chk.repo
+    n = 0
+    for (cname, meth), want in _DELEGATES.items():
+        c = repo.cls(cname)
+        f = c.methods.get(meth)
+        if f is None:
+            chk.ob("R16.3", "%s.%s:delegates" % (cname, meth), False, c.loc(), "primitive vanished", 1)
+            continue
+        chk.saw(f)
+        n += 1
+        ps = f.param_names()
+
+        def subst(t):
+            if t == "$store":
+                return ("attr", ("self",), "_data")
+            if isinstance(t, tuple) and len(t) == 2 and t[0] == "param" and isinstance(t[1], int):
+                return ("param", ps[t[1]]) if t[1] < len(ps) else t
+            if isinstance(t, tuple):
+                return tuple(subst(x) for x in t)
+            return t
+        try:
+            got = function_term(f)
+        except OutsideFragment as e:
+            got = ("?", str(e))
+        w = subst(want)
+        ok = got == w or (w[0] == "cmp" and got == ("cmpchain", (w[1],), (w[2], w[3])))
+        chk.ob("R16.3", "%s.%s:delegates" % (cname, meth), ok, f.loc(),
+               "%s.%s must be exactly %s; it is %s" % (cname, meth, show(w) if w[0] != "cmp" else "v in self._data",
+                                                       show(got) if got[0] != "?" else got[1]), 2)
+    # __setitem__/__delitem__ of DictWrapper
+    dw = repo.cls("DictWrapper")
+    for meth, kind in (("__setitem__", ast.Assign), ("__delitem__", ast.Delete)):
+        f = dw.methods.get(meth)
+        if f is None:
+            continue
+        chk.saw(f)
+        ps = f.param_names()
+        body = [s_ for s_ in f.node.body if not (isinstance(s_, ast.Expr) and isinstance(s_.value, ast.Constant))]
+        ok = len(body) == 1 and isinstance(body[0], kind)
+        if ok:
+            t = body[0].targets[0]
+            ok = isinstance(t, ast.Subscript) and attr_path(t.value) == (f.self_name, "_data") and \
+                attr_path(t.slice) == (ps[1],)
+            if ok and kind is ast.Assign:
+                ok = attr_path(body[0].value) == (ps[2],)
+        chk.ob("R16.3", "DictWrapper.%s:delegates" % meth, ok, f.loc(),
+               "DictWrapper.%s must be the same operation on self._data with the same key%s"
+               % (meth, " and value" if kind is ast.Assign else ""), 2)
+    chk.floor("R16.3", "wrapper primitives compared with the store operation", n, 9)
